@@ -906,6 +906,14 @@ pub fn gen_record_with(bits: u64, evm: u64, rng: &mut Rng, multi: Option<(u64, O
             r.set_some("metrics_free_port", &moved.to_string());
         }
     }
+    // ... and clear of the RPC range (a metrics range moved by +100 from 12001 lands on 12101.. and met an RPC range
+    // starting at 12103 once three services were added: refused by the real add_node, a thorough-tier-only difference)
+    if let Some(mp) = r.some("metrics_free_port").and_then(|p| p.parse::<i64>().ok()) {
+        let rp = rpc_port as i64;
+        if mp < rp + count as i64 && rp < mp + count as i64 {
+            r.set_some("metrics_free_port", &(rp + 300).to_string());
+        }
+    }
     if let Some(o) = r.some("options.owner") {
         if let Some(t) = case_table(&o) {
             r.set("@case", t);
